@@ -1,5 +1,6 @@
 import ShroudVerif.Model.Lex
 import ShroudVerif.Lemmas.Lex
+import ShroudVerif.Gen.Guards
 /-!
 # C16  Documentation and debug options change comments only
 
@@ -300,3 +301,34 @@ theorem commentEdit_accepted (l : Lang) (a b : List Line) (h : CommentEdit l a b
   | trans _ _ ih1 ih2 => exact commentOnlyDiff_trans l _ _ _ ih1 ih2
 
 end Shroud.Lex
+
+/-!
+Part 2: table theorems over `Gen/Guards.lean`, regenerated from the working tree on
+every run by tools/extract_guards.py (AST scan of `shroud/*.py`).
+-/
+namespace Shroud.Gen.Guards
+
+/-- Every statement that executes under `options.debug`, `debug_index`, `doxygen`,
+    declaration-level `literalinclude`, `show_splicer_comments` or `write_version`
+    (in the branch taken when the option is on and in its `else` branch), and every
+    statement of the comment emitters they call, is a comment/blank append, a
+    comment-list extend, an emitter call, a guarded-only local, a flag, control
+    flow, a write of the option itself or an allow-listed statement: the list of
+    unclassified (class 9) sites is empty. -/
+theorem guarded_statements_comment_only :
+    guardedStmts.filter (fun r => r.2.2.2 == 9) = [] := by decide +kernel
+
+/-- every read of one of the options is an `if` test, an alias assignment or an
+    argument of a comment template (or allow-listed): none is unclassified -/
+theorem option_uses_classified :
+    optionUses.filter (fun r => r.2.2.2 == 9) = [] := by decide +kernel
+
+/-- lists named `stmts_comments*` only ever receive comment text, under a guard -/
+theorem comment_lists_clean :
+    commentListWrites.filter (fun r => r.2.2 == 9) = [] := by decide +kernel
+
+/-- non-vacuity: the scan found guarded statements for each of the six options -/
+theorem guards_found :
+    (List.range 6).all (fun o => guardedStmts.any (fun r => r.1 == o)) = true := by decide +kernel
+
+end Shroud.Gen.Guards
